@@ -360,7 +360,7 @@ fn pres(n: usize) -> Vec<Pre> {
 }
 
 pub fn families(tier: Tier) -> Vec<Family> {
-    let acts_all = vec![Act::Relu, Act::Leaky(0.5), Act::Leaky(-1.0), Act::HardTanh, Act::HardSigmoid];
+    let acts_all = vec![Act::Relu, Act::Leaky(0.5), Act::Leaky(-1.0), Act::Leaky(2.0), Act::HardTanh, Act::HardSigmoid];
     let acts_twice = vec![Act::Twice(0), Act::Twice(1), Act::Twice(2), Act::Twice(3), Act::Relu];
     let mut v = vec![];
     match tier {
